@@ -138,6 +138,7 @@ var (
 	vColR   int         // read holds of the collection mutex
 	vColW   bool        // write hold of the collection mutex
 	vOtherW int         // holds of any other mutex (column locks, key table, log): rank 3+
+	vOtherX int         // of those, the exclusive ones
 )
 
 func vNoLatchHeld() bool {
@@ -194,6 +195,7 @@ func vModelRWLock(m *sync.RWMutex) {
 		return
 	}
 	vOtherW++
+	vOtherX++
 }
 
 //@ model sync.(*RWMutex).Unlock
@@ -205,6 +207,7 @@ func vModelRWUnlock(m *sync.RWMutex) {
 	}
 	vAssert("unlock:held", vOtherW > 0)
 	vOtherW--
+	vOtherX--
 }
 
 //@ model sync.(*RWMutex).RLock
